@@ -893,6 +893,51 @@ static void multi_run(const char *name, multi *m)
     vf_space_run(name, N, multi_case, m);
 }
 
+/* (8) composite_triangles with many triangles in one call: a strip of n abutting triangles (and the same strip laid twice, overlapping) must equal
+ * ONE mask holding all of them, composited once - seams between neighbours, double blending of overlaps and, for operators where an empty mask still
+ * changes the destination, wiping of earlier shapes all show if the request is processed in pieces. */
+static void many_tri_case(uint64_t idx, void *vctx)
+{
+    (void)vctx;
+    static const int NS[5] = { 2, 16, 17, 33, 40 };
+    static const pixman_op_t ops[4] = { PIXMAN_OP_OVER, PIXMAN_OP_SRC, PIXMAN_OP_ADD, PIXMAN_OP_IN };
+    static const pixman_format_code_t mf[3] = { PIXMAN_a8, PIXMAN_a4, PIXMAN_a1 };
+    int dims[5] = { 5, 4, 3, 2, 2 }, d[5]; vf_decode(idx, dims, 5, d);
+    int n = NS[d[0]], twice = d[3], dsta8 = d[4];
+    enum { W = 44, H = 4 };
+    pixman_triangle_t tri[80]; int nt = 0;
+    for (int rep = 0; rep <= twice; rep++) for (int i = 0; i < n; i++) {
+        /* a zig-zag strip: triangle i has its base on the top edge for even i, on the bottom edge for odd i; neighbours share a full side */
+        pixman_fixed_t x0 = pixman_int_to_fixed(i + 1) + 0x4000, x1 = pixman_int_to_fixed(i + 2) + 0x4000, x2 = pixman_int_to_fixed(i + 3) + 0x4000, yt = 0x2000, yb = pixman_int_to_fixed(H) - 0x2000;
+        if (i & 1) tri[nt++] = (pixman_triangle_t){ { x0, yb }, { x2, yb }, { x1, yt } };
+        else tri[nt++] = (pixman_triangle_t){ { x0, yt }, { x2, yt }, { x1, yb } };
+    }
+    pixman_format_code_t df = dsta8 ? PIXMAN_a8 : PIXMAN_a8r8g8b8;
+    uint32_t da[W * H], db[W * H], mbuf[W * H];
+    for (int i = 0; i < W * H; i++) da[i] = db[i] = dsta8 ? 0x40302010u + (uint32_t)i * 0x01010101u : (0x80402010u + (uint32_t)i * 0x00030201u);
+    memset(mbuf, 0, sizeof mbuf);
+    pixman_color_t col = { 0x6000, 0x3000, 0x9000, 0xc000 };
+    pixman_image_t *src = pixman_image_create_solid_fill(&col);
+    pixman_image_t *ia = pixman_image_create_bits(df, dsta8 ? W * 4 : W, H, da, W * 4), *ib = pixman_image_create_bits(df, dsta8 ? W * 4 : W, H, db, W * 4);
+    pixman_composite_triangles(ops[d[1]], src, ia, mf[d[2]], 0, 0, 0, 0, nt, tri);
+    /* reference: the box of the request as the library documents it = bounds of the triangles; one mask of that size, every triangle added, one composite */
+    pixman_image_t *m = pixman_image_create_bits(mf[d[2]], W, H, mbuf, W * 4);
+    for (int i = 0; i < nt; i++) pixman_add_triangles(m, 0, 0, 1, &tri[i]);
+    int x1 = 1, x2 = n + 3, ww = dsta8 ? W * 4 : W; if (x2 > ww) x2 = ww;
+    int unbounded = ops[d[1]] == PIXMAN_OP_SRC || ops[d[1]] == PIXMAN_OP_IN;
+    if (unbounded) pixman_image_composite32(ops[d[1]], src, m, ib, 0, 0, 0, 0, 0, 0, ww, H);      /* a zero mask has an effect: the whole destination is the request */
+    else pixman_image_composite32(ops[d[1]], src, m, ib, x1, 0, x1, 0, x1, 0, x2 - x1, H);
+    vf_count_libcalls(nt + 2);
+    pixman_image_unref(src); pixman_image_unref(ia); pixman_image_unref(ib); pixman_image_unref(m);
+    vf_count_eval(1); vf_count_nontrivial(1);
+    if (!vf_in_confirm) vf_outcome(vf_hash64(db, sizeof db, idx));
+    if (memcmp(da, db, sizeof da)) {
+        int at = 0; for (int i = 0; i < W * H; i++) if (da[i] != db[i]) { at = i; break; }
+        vf_violation("c12-many-triangles-differ-from-one-mask", "pixman_composite_triangles(op %d, %d triangles%s, mask format %s, destination %s): word %d of row %d is %#010x, one mask holding every triangle composited once gives %#010x",
+                     (int)ops[d[1]], nt, twice ? " (the strip laid twice)" : "", fmtname(mf[d[2]]), dsta8 ? "a8" : "a8r8g8b8", at % W, at / W, da[at], db[at]);
+    }
+}
+
 /* (7) edges with exactly representable slopes: the error term of such an edge becomes exactly 0 on some rows (the edge passes through a
  * point of the 16.16 grid), which is where "carry when positive" and "carry when not negative" part; every sub-pixel position of the
  * starting point, so that on some row a sample column lies exactly there. */
@@ -1158,6 +1203,7 @@ int main(int argc, char **argv)
     }
     /* (6) public grid / edge functions */
     vf_space_run("public-sample-ceil-floor-y", 3ull * (2 * GRID_WIN + 1 + 140000), gridfn_case, NULL);
+    vf_space_run("composite-triangles-many-in-one-call", 5 * 4 * 3 * 2 * 2, many_tri_case, NULL);
     vf_space_run("exact-slope-edges-every-subpixel-start", 65536ull * 6 * 3, exact_slope_case, NULL);
     vf_space_run("public-edge-init-step", 7ull * 7 * 5 * 6 * 12 * 3, edgestep_case, NULL);
     /* (5) composite_trapezoids route independence */
